@@ -8,7 +8,7 @@ from . import core, session
 def run(chk):
     chk.prove()
     rnd = random.Random(chk.seed)
-    count = 250 if chk.quick() else 6000
+    count = 250 if chk.quick() else 3000
     for variant, ffr in (("matrix", False), ("matrix-ffr", True)):
         scns = [session.build_delivery(rnd, ffr=ffr, small=True) for _ in range(count if not ffr else count // 2)]
         if not chk.quick():
@@ -31,8 +31,8 @@ def run(chk):
     # the same deliveries with clean reboots (drop + try_recover) in between, also with more than 8 unknowns
     from . import c07
     scns = []
-    for k in range(40 if chk.quick() else 1200):
-        b = c07.big_loss_base(rnd) if k % 5 == 0 else session.build_delivery(rnd, small=True, with_history=rnd.random() < 0.3)
+    for k in range(40 if chk.quick() else 400):
+        b = c07.big_loss_base(rnd) if k % 5 == 0 else session.build_delivery(rnd, small=True, with_history=rnd.random() < 0.3, wrapped=(k % 5 == 1))
         if b.meta["cap"] < 1:
             continue
         tw = c07.twin_scenarios(rnd, True, base=b, positions=lambda npos: sorted(rnd.sample(range(npos), min(npos, 2))))
@@ -51,7 +51,7 @@ def run(chk):
     # the object of flash_reconstruction_sound) on fresh-flash deliveries
     from . import ts004
     glines = []
-    for _ in range(200 if chk.quick() else 5000):
+    for _ in range(200 if chk.quick() else 3000):
         ns, slot, blk, sz, n = session.pick_geometry(rnd, True)
         cap = session.max_l(slot, sz)
         img = ts004.make_image(rnd, n, sz)
